@@ -34,7 +34,13 @@ pub struct AckWorld {
     pub next_peer_seq: u64,
     pub max_outstanding: usize,
     pub flags: u64,
+    /// which oracle clauses are evaluated (each property enables its own)
+    pub oracles: u8,
 }
+
+pub const O_SUBSET: u8 = 1;
+pub const O_EQUAL: u8 = 2;
+pub const O_SIZE: u8 = 4;
 
 pub fn encode(p: &Packet) -> Vec<u8> {
     let mut buf = [0u8; 1600];
@@ -64,6 +70,12 @@ fn cap_model(set: &mut BTreeSet<u64>) {
 }
 
 impl AckWorld {
+    pub fn with_oracles(universe: Vec<u64>, oracles: u8) -> Self {
+        let mut w = Self::new(universe);
+        w.oracles = oracles;
+        w
+    }
+
     pub fn new(universe: Vec<u64>) -> Self {
         let mut ep = RenetClient::new(ConnectionConfig::default());
         ep.set_connected();
@@ -78,6 +90,7 @@ impl AckWorld {
             next_peer_seq: 1 << 20,
             max_outstanding: 2,
             flags: 0,
+            oracles: O_SUBSET | O_EQUAL | O_SIZE,
         }
     }
 
@@ -106,7 +119,7 @@ impl AckWorld {
         let snap = self.ep.verif_snapshot();
         let pa = &snap.pending_acks;
         for w in pa.windows(2) {
-            if !(w[0].start < w[0].end && w[0].end < w[1].start) {
+            if self.oracles & O_EQUAL != 0 && !(w[0].start < w[0].end && w[0].end < w[1].start) {
                 return Err(Violation::new(
                     "ACK/range-list-not-sorted-disjoint-nonadjacent",
                     format!("pending ranges {:?}", pa),
@@ -115,22 +128,28 @@ impl AckWorld {
         }
         let mut c = self.ep.clone();
         let pk = guard("get_packets_to_send", || c.get_packets_to_send())?;
-        if let Some(r) = c.disconnect_reason() {
+        if let (Some(r), true) = (c.disconnect_reason(), self.oracles & O_SIZE != 0) {
             return Err(Violation::new(
                 format!("ACK/flush-disconnects/{}", super::c01::reason_class(&r)),
                 format!("get_packets_to_send disconnected the endpoint with {:?}; pending ranges: {}", r, pa.len()),
             ));
         }
+        if c.disconnect_reason().is_some() {
+            return Ok(());
+        }
         if self.model_pending.is_empty() {
-            if !pk.is_empty() {
+            if !pk.is_empty() && self.oracles & O_EQUAL != 0 {
                 return Err(Violation::new("ACK/ack-for-empty-set", format!("{} packets emitted with nothing to acknowledge", pk.len())));
             }
             return Ok(());
         }
         if pk.len() != 1 {
-            return Err(Violation::new("ACK/expected-one-ack-packet", format!("{} packets emitted", pk.len())));
+            if self.oracles & O_EQUAL != 0 {
+                return Err(Violation::new("ACK/expected-one-ack-packet", format!("{} packets emitted", pk.len())));
+            }
+            return Ok(());
         }
-        if pk[0].len() > 1300 {
+        if pk[0].len() > 1300 && self.oracles & O_SIZE != 0 {
             return Err(Violation::new(
                 "ACK/ack-packet-over-1300",
                 format!("ack packet of {} bytes for {} pending ranges", pk[0].len(), pa.len()),
@@ -138,11 +157,14 @@ impl AckWorld {
         }
         let (_, info, _) = decode(&pk[0]);
         let PktInfo::Ack { ranges } = info else {
-            return Err(Violation::new("ACK/not-an-ack-packet", format!("{:?}", info)));
+            if self.oracles & O_EQUAL != 0 {
+                return Err(Violation::new("ACK/not-an-ack-packet", format!("{:?}", info)));
+            }
+            return Ok(());
         };
         for (s, e) in &ranges {
             for x in *s..*e {
-                if !self.received.contains(&x) {
+                if self.oracles & O_SUBSET != 0 && !self.received.contains(&x) {
                     return Err(Violation::new(
                         "ACK/acknowledged-unreceived-sequence",
                         format!("ack packet covers {} which never arrived; ranges {:?}; received {:?}", x, ranges, self.received),
@@ -151,7 +173,7 @@ impl AckWorld {
             }
         }
         let want = ranges_of(&self.model_pending);
-        if ranges != want {
+        if self.oracles & O_EQUAL != 0 && ranges != want {
             return Err(Violation::new(
                 "ACK/ack-packet-differs-from-recorded-set",
                 format!(
@@ -246,8 +268,8 @@ impl World for AckWorld {
 
 /// initial states for the "start from non-initial states" part: n disjoint single-element
 /// ranges with the given spacing, built through the public path in the given arrival order
-pub fn prebuilt(n: usize, base: u64, spacing: u64, order: &str, candidates: Vec<u64>) -> Result<AckWorld, Violation> {
-    let mut w = AckWorld::new(candidates);
+pub fn prebuilt(n: usize, base: u64, spacing: u64, order: &str, candidates: Vec<u64>, oracles: u8) -> Result<AckWorld, Violation> {
+    let mut w = AckWorld::with_oracles(candidates, oracles);
     let mut seqs: Vec<u64> = (0..n as u64).map(|i| base + i * spacing).collect();
     match order {
         "ascending" => {}
@@ -277,11 +299,11 @@ pub struct Part {
     pub depth: u32,
 }
 
-pub fn parts(tier: Tier) -> Vec<Part> {
+pub fn parts(tier: Tier, oracles: u8) -> Vec<Part> {
     let mut v = vec![];
     // (b) every ordered subset of {0..n-1} with flushes and acks of acks in between
     let n = tier.pick(5u64, 7u64);
-    let mut w = AckWorld::new((0..n).collect());
+    let mut w = AckWorld::with_oracles((0..n).collect(), oracles);
     w.max_outstanding = tier.pick(1, 2);
     v.push(Part {
         name: format!("ordered-subsets-of-0..{}", n),
@@ -308,7 +330,7 @@ pub fn parts(tier: Tier) -> Vec<Part> {
                 last + 1,
                 last + 10,
             ];
-            let mut w = prebuilt(n, base, sp, order, cands);
+            let mut w = prebuilt(n, base, sp, order, cands, oracles);
             if let Ok(w) = &mut w {
                 w.max_outstanding = 1;
             }
@@ -322,8 +344,8 @@ pub fn parts(tier: Tier) -> Vec<Part> {
     v
 }
 
-fn run_parts(rep: &mut Report, tier: Tier, keep: &dyn Fn(&str) -> Option<String>) {
-    for (i, p) in parts(tier).into_iter().enumerate() {
+fn run_parts(rep: &mut Report, tier: Tier, oracles: u8, keep: &dyn Fn(&str) -> Option<String>) {
+    for (i, p) in parts(tier, oracles).into_iter().enumerate() {
         let name = format!("ack/{}", p.name);
         let remap = |v: Violation| -> Option<Violation> {
             keep(&v.signature).map(|sig| Violation::new(sig, v.message.clone()))
@@ -365,7 +387,7 @@ fn run_parts(rep: &mut Report, tier: Tier, keep: &dyn Fn(&str) -> Option<String>
 
 pub fn run_c08(rep: &mut Report, tier: Tier) {
     rep.rule("M1 (ack world): every interleaving of arrivals (every ordered subset of {0..n-1}), flushes and acks-of-acks up to depth D on a real endpoint, plus depth-3/4 continuations from prebuilt states with 63/64/65 disjoint ranges (ascending/descending/middle-out construction); oracle: each ack packet only covers sequences that arrived");
-    run_parts(rep, tier, &|sig| {
+    run_parts(rep, tier, O_SUBSET, &|sig| {
         if sig == "ACK/acknowledged-unreceived-sequence" {
             Some("C08/acknowledged-unreceived-sequence".to_string())
         } else if sig.starts_with("panic/") {
@@ -378,7 +400,7 @@ pub fn run_c08(rep: &mut Report, tier: Tier) {
 
 pub fn run_c16(rep: &mut Report, tier: Tier) {
     rep.rule("M1 (ack world): same exploration as C08; oracle: the decoded ack packet equals the reference set (everything that arrived, minus what acks of acks trimmed, newest 64 ranges), range list sorted/disjoint/non-adjacent");
-    run_parts(rep, tier, &|sig| {
+    run_parts(rep, tier, O_EQUAL, &|sig| {
         if sig == "ACK/ack-packet-differs-from-recorded-set"
             || sig == "ACK/range-list-not-sorted-disjoint-nonadjacent"
             || sig == "ACK/not-an-ack-packet"
@@ -394,7 +416,7 @@ pub fn run_c16(rep: &mut Report, tier: Tier) {
 
 pub fn run_c13(rep: &mut Report, tier: Tier) {
     rep.rule("M1 (ack world): same exploration; oracle: the ack packet is <= 1300 bytes and flushing never ends in PacketSerialization");
-    run_parts(rep, tier, &|sig| {
+    run_parts(rep, tier, O_SIZE, &|sig| {
         if sig == "ACK/ack-packet-over-1300" || sig.starts_with("ACK/flush-disconnects") || sig.starts_with("ACK/disconnected") {
             Some(format!("C13/{}", &sig[4..]))
         } else {
@@ -409,7 +431,13 @@ pub fn replay(j: &J) -> i32 {
         _ => Tier::Quick,
     };
     let idx = j.get("scenario_index").and_then(|x| x.as_i()).unwrap_or(0) as usize;
-    let Some(p) = parts(tier).into_iter().nth(idx) else {
+    let oracles = match j.get("property").and_then(|p| p.as_str()) {
+        Some("C08") => O_SUBSET,
+        Some("C16") => O_EQUAL,
+        Some("C13") => O_SIZE,
+        _ => O_SUBSET | O_EQUAL | O_SIZE,
+    };
+    let Some(p) = parts(tier, oracles).into_iter().nth(idx) else {
         eprintln!("bad scenario index");
         return 2;
     };
